@@ -96,7 +96,15 @@ def judge_reject(case):
 
 def pairs(tier):
     ratios = [1e-3, 1e-2, 0.1, 0.5, 1.0, 2.0, 10.0, 1e2, 1e3]
-    return list(U.BUILTIN_MIXTURES) + [(18.02 * r, 18.02) for r in ratios] + ([] if tier == "quick" else [(250.7 / r, 46.07 * r) for r in (0.3, 3.0)])
+    mws = sorted({getattr(U.Components, n).molecular_weight for n in U.BUILTIN_COMPONENTS})
+    # every ordered pair of built-in component molar masses (thorough) / the light-light, heavy-heavy and extreme ones (quick),
+    # plus absolute magnitudes far from water's: both components heavy, both very heavy, both light
+    builtin_pairs = [(a, b) for a in mws for b in mws if a != b]
+    if tier == "quick":
+        builtin_pairs = [pr for pr in builtin_pairs if pr in ((mws[0], mws[1]), (mws[-1], mws[-2]), (mws[-2], mws[-1]), (mws[0], mws[-1]), (mws[len(mws) // 2], mws[len(mws) // 2 + 1]))]
+    heavy = [(78.11, 84.16), (150.0, 131.0), (800.0, 2000.0), (1.0e4, 2.5e4), (2.016, 4.003)]
+    return (list(U.BUILTIN_MIXTURES) + [(18.02 * r, 18.02) for r in ratios] + builtin_pairs + heavy +
+            ([] if tier == "quick" else [(250.7 / r, 46.07 * r) for r in (0.3, 3.0)]))
 
 
 def main(tier, seed):
